@@ -358,6 +358,10 @@ class ODLDecoder(PVLDecoder):
             if match is not None:
                 gd = match.groupdict(default=0)
                 dt = super().decode_datetime(gd["dt"])
+                if isinstance(dt, str) or not hasattr(dt, "tzinfo"):
+                    # Only times and date-times can have a time zone,
+                    # not dates or leap second times kept as text.
+                    raise ValueError
                 offset = timedelta(
                     hours=int(gd["hour"]), minutes=int(gd["minute"])
                 )
